@@ -121,4 +121,51 @@ func init() {
 		Assumptions: []string{"libm functions are uninterpreted symbols: determinism/history-independence proved for every interpretation"},
 		Outside:     []string{"numeric accuracy of the transformers (C08/C09)", "larger geometries"},
 	})
+	rtMerge := []string{
+		ModPath + "/index/rtree.size", ModPath + "/index/rtree.intersect", ModPath + "/index/rtree.containsRect",
+		ModPath + "/index/rtree.minDist", ModPath + "/index/rtree.minMaxDist",
+	}
+	reg(&Property{
+		ID: "C11", Pkgs: []string{"index/rtree"}, Level: "model_checking",
+		Rule: "one evaluation = one explored path: a pre-state tree shape, the operation, the heuristic outcomes (seeds, next entry, group, subtree chosen) with all boxes free grid values; non-trivial = path ends with every invariant assertion discharged",
+		Opts: []HarnessOpt{
+			{Prefix: "VH_C11_", IfConv: true, Merge: rtMerge, MaxUnwind: 40, MaxSteps: 20_000_000},
+			{Prefix: "VH_C11_contract_", Mode: "G", IfConv: true, Merge: rtMerge, MaxUnwind: 40, MaxSteps: 20_000_000},
+		},
+		Hooks: []HookSpec{{File: "index/rtree/rtree.go", Funcs: []string{"pickSeeds", "pickNext", "assignGroup", "chooseNode"}}},
+		Bounds: map[string]string{
+			"parameters": "(MinChildren, MaxChildren) = (2, 4)",
+			"pre-states": "height 1: root leaf with 0..4 entries; height 2: 2..3 leaves (one of size 1..4, the others of one common size); height 3: two inner nodes of two leaves; every box any box of non-NaN doubles (Min <= Max)",
+			"step":       "one Insert (new or duplicate object) or one Delete (stored at any position, or absent); plus a history of 5(6) inserts, complete drain and refill",
+		},
+		Assumptions: []string{"one-step induction: the pre-state family is assumed to cover the reachable well-formed trees of these shapes (the history harness gives reachability witnesses)", "the area heuristics (pickSeeds, pickNext, assignGroup, chooseNode) are replaced by nondeterministic contracts through hooks in an overlay copy of rtree.go generated from the current source; the contract harnesses prove on the integer grid that the real functions refine them"},
+		Outside:     []string{"other branching parameters", "taller trees", "a leaf split that overflows a non-root parent as well (double split): 480^2 heuristic outcomes per shape"},
+	})
+	reg(&Property{
+		ID: "C12", Pkgs: []string{"index/rtree"}, Level: "model_checking",
+		Rule: "one evaluation = one explored path (tree shape, sort order of branches, pruning and insertion decisions) with all boxes and the query point free grid values; non-trivial = path ends with all assertions discharged",
+		Opts: []HarnessOpt{{Prefix: "VH_C12_", Mode: "G", IfConv: true, Merge: rtMerge, MaxUnwind: 40, MaxSteps: 20_000_000}},
+		Hooks: []HookSpec{{File: "index/rtree/rtree.go", Funcs: []string{"pickSeeds", "pickNext", "assignGroup", "chooseNode"}}},
+		Bounds: map[string]string{
+			"trees": "well-formed trees of height 1 (1..3(4) entries) and height 2 (2(3) leaves x 1..2(3) entries), boxes and query point on the signed 3-bit integer grid",
+			"k":     "1..3",
+		},
+		Assumptions: []string{"G mode: squared distances exact; math.Sqrt results are only compared (Lemma S: distinct integers have distinct, ordered rounded roots)", "sort.Sort executed from its real SSA"},
+		Outside:     []string{"taller trees, other branching parameters, larger coordinates", "trees are arbitrary well-formed pre-states (a superset of the reachable ones)"},
+	})
+	reg(&Property{
+		ID: "C13", Pkgs: []string{"."}, Level: "model_checking",
+		Rule: "one evaluation = one explored path (vertex count, outcome of every distance test and crossing test) with all coordinates and the tolerance free grid values; non-trivial = path ends with all assertions discharged",
+		Opts: []HarnessOpt{{Prefix: "VH_C13_", Mode: "G", IfConv: true, UnwindIsViolation: true, MaxUnwind: 60, MaxSteps: 400_000,
+			Merge: []string{ModPath + ".findIntersection", ModPath + ".dot", ModPath + ".pointSubtract", "(" + ModPath + ".Point).Equals"}}},
+		Bounds: map[string]string{
+			"grid":     "integers of 3 (quick) / 4 (thorough) signed bits; tolerance a non-negative grid value",
+			"vertices": "0..4 (5 thorough) for the structural clauses; 4..5 (6) for simplicity; termination = the loop exits within the unwinding/step budget",
+		},
+		Assumptions: []string{
+			"G mode: the perpendicular-foot case of distPointToSegment involves arithmetic on a rounded quotient; that comparison is over-approximated (both outcomes explored), so the structural clauses hold whichever vertices are dropped; the tolerance clause is decided exactly only where every distance test was exact",
+			"simplicity clause: input in general position (no three vertices collinear), as the property states",
+		},
+		Outside: []string{"more vertices, larger coordinates"},
+	})
 }
